@@ -237,11 +237,46 @@ def run_chain(ctx, names=None, depth=None):
             return
 
 
+def case_constructors(ctx):
+    """the constructors that take a pandas table: whatever the class of the argument (plain DataFrame or NestedFrame)
+    and the argument combination, the result is a NestedFrame whose listing names the nested column, and it is usable"""
+    rng = ctx.rng
+    n = rng.randint(1, 4)
+    lists = pd.DataFrame({"k": np.arange(n, dtype=np.int64),
+                          "a": pd.Series(pa.array([[1.0 * i] * (i % 3) for i in range(n)], type=pa.list_(pa.float64())),
+                                         dtype=pd.ArrowDtype(pa.list_(pa.float64()))),
+                          "b": pd.Series(pa.array([[i] * (i % 3) for i in range(n)], type=pa.list_(pa.int64())),
+                                         dtype=pd.ArrowDtype(pa.list_(pa.int64())))})
+    flat = pd.DataFrame({"k": np.arange(2 * n, dtype=np.int64) % n, "a": np.arange(2 * n, dtype=np.float64),
+                         "base": (np.arange(2 * n) % n).astype(np.float64)}, index=pd.Index(np.arange(2 * n) % n))
+    wrap = rng.choice(["plain", "nested"])
+    w = (lambda d: d) if wrap == "plain" else NestedFrame
+    forms = {
+        "from_lists.base_columns": lambda: NestedFrame.from_lists(w(lists), base_columns=["k"], name="n"),
+        "from_lists.list_columns": lambda: NestedFrame.from_lists(w(lists), list_columns=["a", "b"], name="n"),
+        "from_lists.both": lambda: NestedFrame.from_lists(w(lists), base_columns=["k"], list_columns=["a"], name="n"),
+        "from_lists.all_lists": lambda: NestedFrame.from_lists(w(lists[["a", "b"]]), name="n"),
+        "from_flat.base_columns": lambda: NestedFrame.from_flat(w(flat), base_columns=["base"], name="n"),
+        "from_flat.on": lambda: NestedFrame.from_flat(w(flat.reset_index(drop=True)), base_columns=["base"], on="k", name="n"),
+        "from_flat.nested_columns": lambda: NestedFrame.from_flat(w(flat), base_columns=["base"], nested_columns=["a"], name="n"),
+    }
+    for form, fn in forms.items():
+        def run(fn=fn):
+            r = fn()
+            got = observe(r, ["n"])
+            return {"cls": got["cls"], "nested_columns": got["nested_columns"], "usable": got["usable"]}
+        ctx.case(f"closure.constructor.{form}", {"n": n, "argument": wrap}, call_real(run), None,
+                 {"ok": {"cls": "NestedFrame", "nested_columns": ["n"], "usable": {"n": "ok"}}},
+                 features=("constructor", form, wrap), nontrivial=True)
+
+
 def run_all(ctx):
     import itertools
     rng = ctx.rng
     for _ in range(ctx.budget(12, 120)):
         case_reject_nesting(ctx)
+    for _ in range(ctx.budget(8, 80)):
+        case_constructors(ctx)
     names = [o[0] for o in chain_ops(rng)]
     for nm in names:
         run_chain(ctx, [nm])
